@@ -111,7 +111,8 @@ def ops(tier):
 # ---- direct oracle: bind map of real convert() output against the sheet ---------------------------------
 LOGIC = {"relevant": "relevant", "relevance": "relevant", "required": "required", "read_only": "readonly", "readonly": "readonly", "constraint": "constraint",
          "calculation": "calculate", "calculate": "calculate", "constraint_message": "{http://openrosa.org/javarosa}constraintMsg",
-         "required_message": "{http://openrosa.org/javarosa}requiredMsg"}
+         "required_message": "{http://openrosa.org/javarosa}requiredMsg", "noapperrorstring": "{http://openrosa.org/javarosa}noAppErrorString",
+         "no_app_error_string": "{http://openrosa.org/javarosa}noAppErrorString"}
 TRUTH = {"yes": "true()", "Yes": "true()", "YES": "true()", "true": "true()", "True": "true()", "TRUE": "true()",
          "no": "false()", "No": "false()", "NO": "false()", "false": "false()", "False": "false()", "FALSE": "false()"}
 BIND_TYPE = {"text": "string", "string": "string", "integer": "int", "int": "int", "decimal": "decimal", "date": "date", "time": "time", "dateTime": "dateTime",
@@ -155,6 +156,9 @@ def expected_binds(form):
                 cells[attr] = TRUTH.get(vv, vv) if not attr.startswith("{") else vv
             elif base == "bind" and "::" in col:
                 a = col.split("::", 1)[1].strip()
+                if a == "jr:noAppErrorString":
+                    cells["{http://openrosa.org/javarosa}noAppErrorString"] = " ".join(v.split())
+                    continue
                 if ":" in a:
                     continue
                 cells[a] = " ".join(v.split())
@@ -221,6 +225,14 @@ def audit(form, xform):
             if got is None:
                 probs.append(f"{p}: cell {attr.split('}')[-1]}={v!r} did not reach the bind")
             elif got.startswith("jr:itext("):
+                # an untranslated constraint / required message that holds a reference is shown through itext (its <output/> needs a text
+                # element); any other untranslated cell must reach the bind itself -- and a referenced text must exist
+                tid = re.match(r"jr:itext\('(.*)'\)", got)
+                texts = {t.get("id") for t in model.iter(X + "text")}
+                if not (attr.endswith(("constraintMsg", "requiredMsg")) and "${" in v):
+                    probs.append(f"{p}: the untranslated cell {attr.split('}')[-1]}={v!r} reached the bind as the itext reference {got!r}")
+                elif not tid or tid.group(1) not in texts:
+                    probs.append(f"{p}: bind {attr.split('}')[-1]} refers to {got!r}, which no translation defines")
                 continue
             elif norm_expr(got) != norm_expr(v):
                 probs.append(f"{p}: bind {attr.split('}')[-1]} is {got!r}, the cell says {v!r}")
@@ -291,6 +303,8 @@ def _check(args):
                 cells_.append((f"{msg}::es", "msg es"))
             for k, v in cells_:
                 r[k] = v
+    if i % 5 == 2:
+        forms.add_exotics(rng_for(seed, PID, "exotic", i), form, ["noapp_ref", "group_truth"], p=0.8)
     # multi-word headers written with any white space between the words (the audit reads the canonical key)
     conv = form
     if i % 3 == 0:
